@@ -1,4 +1,6 @@
 import Driver.Sexp
+import Plenc.JSONOut
+import Plenc.Intern
 /-
   Driver.Main — reads one op per line on stdin, runs the model's executable
   definitions, prints one canonical result line per op.  The Go harness runs the
@@ -16,8 +18,43 @@ def optBind {α β} (o : Option α) (f : α → Option β) : Option β := o.bind
 /-- build with the top-level conventions of `Marshal`/`Unmarshal`. -/
 def buildTop (cfg : Cfg) (d : TyDef) (tag : String) : Res Ty := build cfg d tag
 
+/-- outputter calls: so eo sa ea (n xRAW) (s xRAW) (t xTOK) and typed scalars
+(i64 V xTOK) (u64 V xTOK) (f64 BITS xTOK) (f32 BITS xTOK) (bool B xTOK) (time S N xTOK) (raw xTOK):
+the model takes the token bytes (number/time formatting is a parameter of the
+model, supplied by the harness from strconv / time directly). -/
+def parseCall : Sexp → Option JSONOut.Call
+  | .atom "so" => some .startObj
+  | .atom "eo" => some .endObj
+  | .atom "sa" => some .startArr
+  | .atom "ea" => some .endArr
+  | .list [.atom "n", .atom h] => (parseHex h).map .name
+  | .list [.atom "s", .atom h] => (parseHex h).map .str
+  | .list [.atom "t", .atom h] => (parseHex h).map .tok
+  | .list [.atom "raw", .atom h] => (parseHex h).map .tok
+  | .list [.atom _, .atom _, .atom h] => (parseHex h).map .tok
+  | .list [.atom "time", .atom _, .atom _, .atom h] => (parseHex h).map .tok
+  | _ => none
+
 def runOp (s : Sexp) : String :=
   match s with
+  -- C15: (jsonout (calls…) (calls…) …): one batch per Done()/Reset() cycle
+  | .list (.atom "jsonout" :: batches) =>
+    match batches.mapM (fun b => match b with | .list cs => cs.mapM parseCall | _ => none) with
+    | some bs => String.intercalate " " ((JSONOut.jsonOutSession JSONOut.fresh bs).map hexOf)
+    | none => "bad-op"
+  -- C19: (internseq xD1 xD2 …): results and sharing structure through one intern table
+  | .list (.atom "internseq" :: .atom _kind :: ds) =>
+    match ds.mapM (fun d => match d with | .atom h => parseHex h | _ => none) with
+    | some ds =>
+      -- sharing structure: allocation ids renumbered by first appearance among the
+      -- non-empty results (the empty string has no observable identity in Go)
+      let ids := Intern.internIds ds
+      let pairs := (ds.zip ids).filter (fun p => !p.1.isEmpty)
+      let order : List Nat := pairs.foldl (fun acc p => if acc.contains p.2 then acc else acc ++ [p.2]) []
+      let shown := (ds.zip ids).map fun p =>
+        if p.1.isEmpty then " -" else s!" {(order.findIdx (· == p.2))}"
+      String.intercalate " " ((Intern.internSeq ds).map hexOf) ++ " |" ++ String.join shown
+    | none => "bad-op"
   -- C18 primitives ---------------------------------------------------------
   | .list [.atom "varu", .atom n, .atom trail] =>
     match n.toNat?, parseHex trail with
